@@ -23,7 +23,9 @@ CLAIM = dict(
          "and Berry curvature at the endpoints against the original systems, affinity for alpha inside and outside "
          "[0,1], alphas within 1e-3 ... 1e-12 of the end points, accumulated alphas and finite differences with tiny steps "
          "(X(alpha) - X(1) = (alpha-1)(X1-X0) exactly in the model: no flat neighbourhood of an end point; the "
-         "snap-to-endpoint rule is refuted by a counterexample), and the SOC interpolator's sub-systems.",
+         "snap-to-endpoint rule is refuted by a counterexample), and the SOC interpolator's sub-systems; call histories on one "
+         "interpolator (repeated and interleaved alphas with in-place modification of the returned systems): "
+         "interpolate is a function of (system0, system1, alpha) only.",
     note="Trusted: Lean kernel + Mathlib; the harness; numpy arithmetic; evaluate_k as the observation channel.",
 )
 TRUSTED = [
@@ -34,7 +36,7 @@ TRUSTED = [
 ]
 RULE = ("pairs of random Hermitian System_R on the same lattice: num_wann 1-4, 1-9 R-vectors each with equal, "
         "overlapping and disjoint (except 0) R sets, matrix sets {Ham}, {Ham,AA}, {Ham,AA,SS}, {Ham,SS} in all "
-        "combinations, different centres; alpha in {0,1}, inside and outside [0,1], end point +- {1e-3,1e-5,8e-6,1e-7,1e-9,1e-12}, sum([0.1]*10), finite differences with h down to 1e-7; use_pointgroup 0/1/-1; "
+        "combinations, different centres; alpha in {0,1}, inside and outside [0,1], end point +- {1e-3,1e-5,8e-6,1e-7,1e-9,1e-12}, sum([0.1]*10), finite differences with h down to 1e-7; histories of 5-8 interpolate calls per interpolator with the returned systems modified in place between calls; use_pointgroup 0/1/-1; "
         "non-trivial = R sets differ or matrix sets differ; distinct = distinct (sizes, R sets, keys, seed)")
 
 
@@ -216,6 +218,69 @@ def near_endpoints(ctx, ip, case, soc=False, quick=True):
                     return
     ctx.count("oracle.near_endpoints" + (".soc" if soc else ""))
 
+
+def snapshot(s, soc=False):
+    return {k: np.array(v, copy=True) for k, v in fields(s, soc).items()}
+
+
+def same_fields(a, b):
+    if sorted(a) != sorted(b):
+        return f"fields {sorted(set(a) ^ set(b))}"
+    for k in a:
+        if a[k].shape != b[k].shape or not np.array_equal(a[k], b[k]):
+            return k
+    return None
+
+
+def call_history(ctx, ip, s0, s1, case, soc=False):
+    """histories on ONE interpolator: interpolate(alpha) is a function of (system0, system1, alpha) only - repeated
+    calls with the same alpha, interleaved with other alphas and with in-place modifications of the systems that
+    were returned earlier (a caller may do anything with a System_R it was given), give the same result; the
+    interpolator's own systems and the input systems are not affected either"""
+    rng, nprng = ctx.rng, ctx.nprng()
+    ref, log = {}, []
+    alphas = [0.0, 1.0, float(rng.choice([0.25, 0.5, 0.3])), float(nprng.uniform(-0.5, 1.5))]
+    in0, in1 = snapshot(s0, soc), snapshot(s1, soc)
+    for step in range(rng.randint(5, 8)):
+        a = alphas[step] if step < 4 else rng.choice(alphas)
+        with quiet(), warnings.catch_warnings():
+            warnings.simplefilter("ignore")
+            sa = ip.interpolate(a)
+        now = snapshot(sa, soc)
+        log.append(f"interpolate({a!r})")
+        if a in ref:
+            bad = same_fields(ref[a], now)
+            if bad:
+                ctx.fail(f"interpolate({a!r}) called again on the same interpolator differs in '{bad}' from its first result "
+                         f"after {log}", dict(case, history=list(log)))
+                return
+        else:
+            ref[a] = now
+        # the caller modifies the system it was given, in place
+        mod = rng.choice(["matrix", "matrix", "centres", "set_R_mat", "sub"])
+        targets = [sa] + ([sa.system_up] if soc and mod == "sub" else [])
+        t = targets[-1]
+        with quiet(), warnings.catch_warnings():
+            warnings.simplefilter("ignore")
+            if mod in ("matrix", "sub") and t._XX_R:
+                k = rng.choice(sorted(t._XX_R))
+                t._XX_R[k] *= 3.0
+                t._XX_R[k] += 1.0
+                log.append(f"returned system: {k}_R modified in place")
+            elif mod == "set_R_mat" and t._XX_R:
+                k = rng.choice(sorted(t._XX_R))
+                t.set_R_mat(k, np.zeros_like(t._XX_R[k]), reset=True)
+                log.append(f"returned system: set_R_mat({k}, 0, reset=True)")
+            else:
+                t.wannier_centers_cart += 0.125
+                t.rvec.shifts_left_red += 0.25
+                log.append("returned system: centres and shifts moved in place")
+    for name, s, snap in (("system0", s0, in0), ("system1", s1, in1)):
+        bad = same_fields(snap, snapshot(s, soc))
+        if bad:
+            ctx.fail(f"the input {name} handed to the interpolator was changed ('{bad}') by {log}", dict(case, history=list(log)))
+    ctx.count("oracle.call_history" + (".soc" if soc else ""))
+
 def oracle(ctx, scale):
     with quiet():
         from wannierberri.system.interpolate import SystemInterpolator, SystemInterpolatorSOC
@@ -281,6 +346,11 @@ def oracle(ctx, scale):
                 ctx.fail("the R-vector shifts of the interpolated system are not its Wannier centres", acase)
             if not np.array_equal(sg.rvec.iRvec, ip.system0.rvec.iRvec):
                 ctx.fail("the interpolated system does not live on the union R-vector list", acase)
+            if it % 2 == 1 or ctx.tier != "quick":
+                with quiet(), warnings.catch_warnings():
+                    warnings.simplefilter("ignore")
+                    ip2 = SystemInterpolator(s0, s1, use_pointgroup=upg)
+                call_history(ctx, ip2, s0, s1, case)
             if it % 3 == 0 or ctx.tier != "quick":
                 near_endpoints(ctx, ip, case, quick=(ctx.tier == "quick"))
 
@@ -347,6 +417,10 @@ def oracle(ctx, scale):
                 d = np.abs(ea._XX_R[key] - ((1 - a) * e0._XX_R[key] + a * e1._XX_R[key])).max()
                 if d > 2e-14 * (1 + abs(a)):
                     ctx.fail(f"SOC matrix {key} is not affine in alpha", dict(case, alpha=a))
+            with quiet(), warnings.catch_warnings():
+                warnings.simplefilter("ignore")
+                ip2 = SystemInterpolatorSOC(socs[0], socs[1], use_pointgroup=-1)
+            call_history(ctx, ip2, socs[0], socs[1], case, soc=True)
             if it % 2 == 0:
                 near_endpoints(ctx, ip, case, soc=True, quick=(ctx.tier == "quick"))
 
